@@ -74,5 +74,133 @@ class RecursiveSeqletEmit(FragmentContract):
         return replay_fragment_generic(self._world, self, cfg, env)
 
 
+class TfmodiscoSeqletRow(FragmentContract):
+    """C19 (row construction of tfmodisco_seqlets, the body of its last loop): for a seqlet (example, start, end) that
+    spans window_size + 2*flank positions, the row appended is (example, start, end, attr) with attr exactly the sum
+    of the input over the central window [start + flank, start + flank + window_size) - whatever the flank, the
+    window size and the position; the attribution tensor is not written."""
+    qualname = 'tangermeme.seqlet.tfmodisco_seqlets'
+    props = ('C19',)
+    stmt_block = ('attr_flank = int(0.5', ('until', 'seqlets_.append('))
+    key = 'tangermeme.seqlet.tfmodisco_seqlets#row'
+
+    def scopes(self, cfg):
+        return [{'default': 3, 'X_attr.d1': 6}, {'default': 2, 'X_attr.d1': 4}]
+
+    def make_env(self, cfg, A):
+        n, L = A.dim('n', 1), A.dim('L', 1)
+        X = A.tensor('X_attr', 2, 'real', shape=[n, L])
+        e = A.int('example_id', lo=0)
+        st, w, fl = A.int('start_', lo=0), A.int('window_size', lo=1), A.int('flank', lo=0)
+        A.assume(e < n, st + w + 2 * fl <= L)
+        start = spec_tensor([], lambda: st, 'int')
+        end = spec_tensor([], lambda: st + w + 2 * fl, 'int')
+        return dict(X_attr=X, example_id=e, start=start, end=end, window_size=w, seqlets_=[], _st=st, _fl=fl)
+
+    def post_env(self, b, a, outcome, cfg):
+        from vf.lib import Sum
+        out = [('no-exception', not outcome.startswith('raise'))]
+        S = a.seqlets_
+        out.append(('one-row-appended', isinstance(S, list) and len(S) == 1 and isinstance(S[0], tuple) and len(S[0]) == 4))
+        if not (out[0][1] and out[1][1]):
+            return out
+        e, s, en, attr = S[0]
+        st, fl, w = b._st, b._fl, b.window_size
+        out.append(('fields', And(O.eq(e, b.example_id), O.eq(s, st), O.eq(en, st + w + 2 * fl))))
+        X = b.X_attr
+        if not O.any_sym(st, fl, w, attr):
+            from vf.contract import num_eq
+            out.append(('attribution-is-the-central-window-sum', num_eq(float(attr), sum(float(X[b.example_id, k]) for k in range(int(st + fl), int(st + fl + w))))))
+        else:
+            out.append(('attribution-is-the-central-window-sum', O.smart_eq(O.to_z3(attr), O.to_z3(Sum(0, w, lambda k: X.elem(b.example_id, st + fl + k), 'real')))))
+        out.extend(same(a.X_attr, b.X_attr, 'X_attr-unwritten'))
+        return out
+
+    def replay_fragment(self, cfg, st):
+        import torch
+        from vf.contract import replay_fragment_generic
+        n, L = st.get('X_attr.shape', [1, 8])
+        if n < 1 or L < 1 or n * L > 4096:
+            return []
+        s0, fl, w = int(st.get('_st', 0)), int(st.get('_fl', 0)), int(st.get('window_size', 1))
+        if not (0 <= s0 and w >= 1 and fl >= 0 and s0 + w + 2 * fl <= L and 0 <= st['example_id'] < n):
+            return []
+        g = torch.Generator().manual_seed(0)
+        X = torch.randint(-64, 65, (n, L), generator=g).double() / 64
+        env = dict(X_attr=X, example_id=int(st['example_id']), start=torch.tensor(s0), end=torch.tensor(s0 + w + 2 * fl), window_size=w, seqlets_=[],
+                   _st=s0, _fl=fl)
+        return replay_fragment_generic(self._world, self, cfg, env)
+
+
+class IterativeExtractStep(FragmentContract):
+    """C19 (one step of _iterative_extract_seqlets, the body of its `while True`): with a the first position of the
+    maximum of row i, the step stops (break) exactly when that maximum is -inf; otherwise it appends the seqlet
+    (i, a - flank, a + window_size + flank) and sets to -inf exactly the cells of row i within `suppress` of a
+    (clipped to the row: [max(a - suppress, 0), min(a + suppress + 1, d))), nothing else.  Consequence (argued, not
+    machine-checked): a later maximum of the same row is finite, hence outside every suppressed range - two seqlets
+    of one example have starts more than `suppress` apart."""
+    qualname = 'tangermeme.seqlet._iterative_extract_seqlets'
+    props = ('C19',)
+    stmt_block = ('argmax = ', ('until', 'X_sum['))
+    key = 'tangermeme.seqlet._iterative_extract_seqlets#step'
+
+    def scopes(self, cfg):
+        return [{'default': 2, 'X_sum.d1': 4}, {'default': 1, 'X_sum.d1': 3}]
+
+    def make_env(self, cfg, A):
+        n, d = A.dim('n', 1), A.dim('d', 1)
+        X = A.tensor('X_sum', 2, 'real', shape=[n, d])
+        i = A.int('i', lo=0)
+        A.assume(i < n)
+        return dict(X_sum=X, n=n, d=d, i=i, window_size=A.int('window_size', lo=1), flank=A.int('flank', lo=0), suppress=A.int('suppress', lo=0), seqlets=[])
+
+    def post_env(self, b, a, outcome, cfg):
+        from vf.ops import PINF
+        from vf.spec import _symbolic_content
+        X0, X1 = b.X_sum, a.X_sum
+        i, d = b.i, b.d
+        if not O.any_sym(i, d) and not _symbolic_content(X0):
+            PINF = float('inf')          # concrete interpretation (replay on real tensors)
+        allinf = O.forall([d], lambda c: X0.elem(i, c) <= -PINF)     # no cell above -inf (in IEEE arithmetic: every cell is -inf)
+        out = [('no-exception', not outcome.startswith('raise'))]
+        if outcome == 'break':
+            out.append(('stops-only-when-the-row-is-exhausted', allinf))
+            out.append(('nothing-appended', isinstance(a.seqlets, list) and len(a.seqlets) == 0))
+            out.extend(same(X1, X0, 'X_sum-unchanged'))
+            return out
+        out.append(('continues-only-with-a-finite-maximum', O.exists_box([d], lambda c: O.ne(X0.elem(i, c), -PINF))))
+        S = a.seqlets
+        out.append(('one-seqlet-appended', isinstance(S, list) and len(S) == 1 and isinstance(S[0], tuple) and len(S[0]) == 3))
+        if not out[-1][1]:
+            return out
+        sc = lambda v: v.elem() if isinstance(v, Tn) and v.rank == 0 else v
+        e, s, en = [sc(v) for v in S[0]]
+        am = s + b.flank
+        out.append(('seqlet-is-(i, a - flank, a + window + flank)', And(O.eq(e, i), O.eq(en, am + b.window_size + b.flank))))
+        out.append(('a-is-the-first-maximum-of-the-row', And(0 <= am, am < d, O.forall([d], lambda c: And(X0.elem(i, c) <= X0.elem(i, am), Implies(c < am, X0.elem(i, c) < X0.elem(i, am)))))))
+        lo = O.vmax(am - b.suppress, 0)
+        hi = O.vmin(am + b.suppress + 1, d)
+        out.append(('exactly-the-cells-within-suppress-are-cleared', O.forall(X0.shape, lambda r, c: O.eq(X1.elem(r, c), ite(And(O.eq(r, i), lo <= c, c < hi), -PINF, X0.elem(r, c))))))
+        return out
+
+    def replay_fragment(self, cfg, st):
+        import torch
+        from vf.contract import replay_fragment_generic
+        n, d = st.get('X_sum.shape', [1, 6])
+        if n < 1 or d < 1 or n * d > 4096:
+            return []
+        vals = st.get('X_sum')
+        if vals is None:
+            g = torch.Generator().manual_seed(1)
+            X = torch.randint(-3, 4, (n, d), generator=g).double()
+        else:
+            X = torch.tensor([[float('-inf') if abs(float(v)) > 1e29 else float(int(round(float(v))) % 5) for v in r] for r in vals], dtype=torch.float64)
+        env = dict(X_sum=X, n=n, d=d, i=int(st['i']) % n, window_size=max(1, int(st.get('window_size', 1)) % 4), flank=abs(int(st.get('flank', 0))) % 3,
+                   suppress=abs(int(st.get('suppress', 0))) % 4, seqlets=[])
+        return replay_fragment_generic(self._world, self, cfg, env)
+
+
 def register(world):
     world.register_fragment(RecursiveSeqletEmit())
+    world.register_fragment(TfmodiscoSeqletRow())
+    world.register_fragment(IterativeExtractStep())
